@@ -76,4 +76,51 @@ def validatorSetModel (s : State) : List String :=
         | some c => if c.totalBip == v.totalBip then none else some s!"VIOL C17 validator-stake-differs-from-candidate pubkey={v.pubkey} validator={v.totalBip} candidate={c.totalBip}"
         | none => none))
 
+/-! ## Pruning at a recalculation (`RecalculateStakesV2`): who is removed is decided by the totals of THIS recalculation -/
+
+/-- All stakes and pending updates of the candidate are in the base coin: its recalculated total is the plain sum
+    (`calculateBipValue` is the identity for the base coin; fewer than 1000 entries, so nothing is kicked to the waitlist). -/
+def baseOnly (c : Candidate) : Bool :=
+  (c.stakes ++ c.updates).all (fun s => s.coin == 0) && decide ((c.stakes ++ c.updates).length ≤ maxDelegators)
+
+/-- Base-coin part of the recalculated total: a lower bound in general (custom-coin stakes are worth ≥ 0), the exact total
+    for a `baseOnly` candidate. Updates with a non-positive value are dropped by `getFilteredUpdates`. -/
+def baseStakeSum (c : Candidate) : Int :=
+  sumBy (fun s => if s.coin == 0 then s.value else 0) c.stakes
+  + sumBy (fun s => if s.coin == 0 && decide (s.value > 0) then s.value else 0) c.updates
+
+/-- C17 on the node's own states around an EndBlock (`old` = live state before, `new` = after; `recalc` = the block is a
+    recalculation block). The survivors carry their recalculated totals in `new`; a removed candidate's total is known from its
+    stakes and pending updates in `old` (exactly when they are all in the base coin, else bounded from below).
+    * nobody who is removed outranks (stake desc, id asc - `candLessID`) a candidate that stays;
+    * when every removed candidate's total is exact, the removed set is `prunedCandidates` - the function the C17 theorems
+      are about - of the candidates with their recalculated totals;
+    * after a recalculation no non-validator stands beyond rank 100, and nobody is removed while there is room. -/
+def pruneMonitor (old new : State) (recalc : Bool) : List String :=
+  let removed := old.candidates.filter (fun c => !(new.candidates.any (fun d => d.id == c.id)))
+  let isVal : PubKey → Bool := fun pk => old.validators.any (fun v => v.pubkey == pk)
+  let stay := new.candidates.filter (fun s => !isVal s.pubkey)
+  let outranks := (removed.flatMap (fun (r : Candidate) =>
+    let lb := baseStakeSum r
+    let rel := if baseOnly r then "=" else ">="
+    stay.filterMap (fun (s : Candidate) =>
+      if decide (lb > s.totalBip) || (baseOnly r && decide (lb = s.totalBip) && decide (r.id < s.id)) then
+        some s!"VIOL C17 removed-candidate-outranks-survivor removed={r.id} total{rel}{lb} survivor={s.id} total={s.totalBip}"
+      else none))).take 3
+  let exact :=
+    if removed.isEmpty || !(removed.all baseOnly) then [] else
+    let cands := new.candidates ++ removed.map (fun r => { r with totalBip := baseStakeSum r })
+    let want := (prunedCandidates candidatesLimit isVal cands).map (·.id)
+    let got := removed.map (·.id)
+    if want.all got.contains && got.all want.contains then []
+    else [s!"VIOL C17 pruned-set-differs model={want} node={got}"]
+  let room :=
+    if !removed.isEmpty && old.candidates.length ≤ candidatesLimit then
+      [s!"VIOL C17 candidate-removed-within-limit removed={removed.map (·.id)} candidates={old.candidates.length}"] else []
+  let beyond :=
+    if !recalc then [] else
+    (((sortStable candLessID new.candidates).drop candidatesLimit).filter (fun c => !isVal c.pubkey)).map (fun c =>
+      s!"VIOL C17 candidate-beyond-limit-not-removed id={c.id} total={c.totalBip} candidates={new.candidates.length}")
+  outranks ++ exact ++ room ++ beyond.take 3
+
 end Minter
